@@ -40,7 +40,7 @@ PROPS = {
                 coq=['props/C07.vo'], tags=[7],
                 streams=[('w1', 'S6', 50, 60), ('w2', 'S6', 25, 60)], configs=['dbg', 'rel'], need=['iterd', 'create']),
     'C08': dict(title='No handle is ever issued twice within a world',
-                coq=['props/C08.vo'], macro=dict(cases=120, stress=True), tags=[8],
+                coq=['props/C08.vo'], macro=dict(cases=120, stress=True), tags=[8], cycle=True,
                 streams=[('w1', 'S7', 40, 60), ('w1', 'S1', 20, 60), ('w2', 'S7', 20, 60)],
                 configs=['dbg', 'rel-plain'], need=['create', 'destroy']),
     'C09': dict(title='A direct handle never designates another entity and dies with any removal',
@@ -76,7 +76,7 @@ PROPS['C18'] = dict(title='Generated code is unsafe-free and unsound client prog
                     coq=['props/C18.vo'], tags=[18], c18=dict(cases=60),
                     streams=[], configs=['dbg'], need=[])
 PROPS['C19'] = dict(title='Crate features and build profiles change nothing but what they document',
-                    coq=['props/C19.vo'], big=True, tags=[1, 2, 3, 4, 5, 6, 7, 8, 9, 10, 12, 13, 14, 17, 19],
+                    coq=['props/C19.vo'], big=True, cycle=True, tags=[1, 2, 3, 4, 5, 6, 7, 8, 9, 10, 12, 13, 14, 17, 19],
                     streams=[('w1', 'S1', 12, 50), ('w1', 'S2', 10, 50), ('w1', 'S7', 12, 50), ('w1', 'S12', 10, 50), ('w1', 'S9', 8, 50), ('w3', 'S2', 10, 40), ('w3', 'S1', 8, 40)],
                     configs=['dbg-ev', 'dbg-wrap', 'rel', 'rel-plain', 'dbg-32'], need=['create'])
 PROPS['C15'] = dict(title='Archetype and component ids follow the discriminant rule and are unique',
